@@ -270,6 +270,13 @@ pub fn check(ctx: &Ctx) -> i32 {
         Item::Combos => {
             judge_chains((idx as u64, 50_000_000), t);
             let titles: Vec<Option<String>> = vec![None, Some(String::new()), Some("a".into()), Some("é".into()), Some("日本".into()), Some("\u{1d11e}".into()), Some("x".repeat(255)), Some("y".repeat(256)), Some("z".repeat(70000)), Some("nul\0inside".into()), Some("  padded \n".into()), Some(" ".into()), Some("\ttab".into())];
+            // titles that spell the four-character codes of the boxes around them (writers that
+            // search their own output for a code, or patch a box in place, find the title instead)
+            let mut titles = titles;
+            for code in ["stco", "co64", "stsz", "stsc", "stts", "stss", "ctts", "mdat", "moov", "trak", "udta", "meta", "ilst", "data", "mvhd", "tkhd", "mdhd", "free"] {
+                titles.push(Some(format!("How {code} tables work: a talk")));
+                titles.push(Some(format!("{code}\0\0\0\u{1}\0\0\0\u{2}")));
+            }
             let times = [None, Some(0u64), Some(951_782_400), Some(4_102_444_799)];
             let langs: Vec<(Option<String>, bool)> = vec![(None, true), (Some("eng".into()), true), (Some("zzz".into()), true), (Some("".into()), false), (Some("e".into()), false), (Some("en".into()), false), (Some("ENG".into()), false), (Some("e1g".into()), false), (Some("éng".into()), false), (Some("engl".into()), false)];
             let mut k = 0;
@@ -311,7 +318,7 @@ pub fn check(ctx: &Ctx) -> i32 {
         &tally,
         Meta {
             level: "exploration",
-            rule: format!("creation times: every day from 1970-01-01 to {y:04}-{m:02}-{d:02} at seconds-of-day {secs:?}{}; all 17576 lower-case three-letter language codes on A/V files (every track's mdhd); the product of 13 titles (empty, 1-4 byte scalars, 255/256/70000 bytes, embedded NUL, surrounding and only whitespace) x 4 creation times x 10 language values (3 well-formed, 7 malformed - for those only well-formedness is demanded) x 0-2 frames x 4 codec/audio/layout configurations (and, for every language value, three frames 15 000 s apart: tracks longer than 2^31 ticks), each also compared with the same history without metadata (reader-reduced movie equal, chunk offsets shifted uniformly by the size of udta in the fast-start layout and not at all otherwise). Builder chains (with_metadata(title) then set_create_time / set_language in either order) must equal the complete Metadata value. Reference calendar: civil-from-days, written independently. Distinct by (udta bytes, packed language).", if ctx.thorough { "" } else { ", plus Jan 1 / Feb 28 / Feb 29 or Mar 1 / Mar 1 / Dec 31 of every year to 9999 at 0 and 86399" }),
+            rule: format!("creation times: every day from 1970-01-01 to {y:04}-{m:02}-{d:02} at seconds-of-day {secs:?}{}; all 17576 lower-case three-letter language codes on A/V files (every track's mdhd); the product of 49 titles (empty, 1-4 byte scalars, 255/256/70000 bytes, embedded NUL, surrounding and only whitespace, and 36 titles spelling the four-character code of a box of the file, in prose or followed by bytes that read as a table header) x 4 creation times x 10 language values (3 well-formed, 7 malformed - for those only well-formedness is demanded) x 0-2 frames x 4 codec/audio/layout configurations (and, for every language value, three frames 15 000 s apart: tracks longer than 2^31 ticks), each also compared with the same history without metadata (reader-reduced movie equal, chunk offsets shifted uniformly by the size of udta in the fast-start layout and not at all otherwise). Builder chains (with_metadata(title) then set_create_time / set_language in either order) must equal the complete Metadata value. Reference calendar: civil-from-days, written independently. Distinct by (udta bytes, packed language).", if ctx.thorough { "" } else { ", plus Jan 1 / Feb 28 / Feb 29 or Mar 1 / Mar 1 / Dec 31 of every year to 9999 at 0 and 86399" }),
             bound: if ctx.thorough { "every day of years 1970-9999".into() } else { "every day 1970-2110, calendar-special days to 9999".to_string() },
             exhaustive: true,
             assumptions: vec!["termination for creation times up to u64::MAX is C12's child-process check".into()],
